@@ -6,6 +6,7 @@ package main
 
 import (
 	"go/token"
+	"go/types"
 
 	"golang.org/x/tools/go/ssa"
 )
@@ -80,6 +81,12 @@ func stripConv(v ssa.Value) ssa.Value {
 		switch x := v.(type) {
 		case *ssa.ChangeType:
 			v = x.X
+		case *ssa.Convert:
+			// widening conversions within one signedness keep the value (int -> int64, uint8 -> uint64)
+			if !wideningConv(x.X.Type(), x.Type()) {
+				return v
+			}
+			v = x.X
 		default:
 			return v
 		}
@@ -103,7 +110,7 @@ func isAddrPath(p string) bool { return len(p) > 0 && p[0] == '&' }
 // FactsAt returns the comparison facts that hold on entry to block b (dominating branch edges).
 func FactsAt(b *ssa.BasicBlock) []Cmp {
 	var out []Cmp
-	for _, cd := range DomConds(b) {
+	for _, cd := range ExpandConds(DomConds(b)) {
 		if c, ok := CmpOf(cd.V, cd.Truth); ok {
 			out = append(out, c)
 		}
@@ -163,4 +170,44 @@ func UpperBoundBy(v ssa.Value, facts []Cmp, isW func(ssa.Value) bool, needStrict
 		}
 	}
 	return false
+}
+
+func wideningConv(from, to types.Type) bool {
+	fb, ok1 := from.Underlying().(*types.Basic)
+	tb, ok2 := to.Underlying().(*types.Basic)
+	if !ok1 || !ok2 || fb.Info()&types.IsInteger == 0 || tb.Info()&types.IsInteger == 0 {
+		return false
+	}
+	if (fb.Info()&types.IsUnsigned != 0) != (tb.Info()&types.IsUnsigned != 0) {
+		return false
+	}
+	width := func(b *types.Basic) int {
+		switch b.Kind() {
+		case types.Int8, types.Uint8:
+			return 8
+		case types.Int16, types.Uint16:
+			return 16
+		case types.Int32, types.Uint32:
+			return 32
+		case types.Int64, types.Uint64:
+			return 64
+		case types.Int, types.Uint, types.Uintptr:
+			return 63 // at most 64, at least 32: wider than 32-bit types, not wider than 64-bit ones
+		}
+		return 0
+	}
+	fw, tw := width(fb), width(tb)
+	if fw == 0 || tw == 0 {
+		return false
+	}
+	if fw == 63 && tw == 63 {
+		return true
+	}
+	if fw == 63 {
+		return tw == 64
+	}
+	if tw == 63 {
+		return fw <= 32
+	}
+	return fw <= tw
 }
